@@ -48,3 +48,57 @@ Qed.
 Definition C11_concrete pw := fun encode decode_step enc dec iv0 valid_req user auth_ok conn_to send_to recv_to rbuf E m =>
   @ClientLog.C11_no_secret message encode decode_step enc dec iv0 valid_req (c_auth_req user pw) auth_ok conn_to send_to recv_to rbuf E m
      (reveals_dump pw) (reveals_tree pw).
+
+(* ---- the levels at which nothing but fixed texts and rendered trees is logged ----
+   Byte dumps are written at level Trace (6) only. With a log level of at most Debug (5) - all of logrus' named levels up to
+   Debug - the theorem needs no assumption about ciphertext or about the bytes the peer sends: *)
+Section Quiet.
+  Variable msg : Type.
+  Variable encode : Z * Z -> list msg -> list N.
+  Variable decode_step : list N -> list N -> option (option (list msg)) * list N.
+  Variable enc : list N -> list N -> list N * list N.
+  Variable dec : list N -> list N -> list N * list N.
+  Variable iv0 : list N.
+  Variable valid_req : list msg -> bool.
+  Variable auth_req : list msg.
+  Variable auth_ok : list msg -> bool.
+  Variables conn_to send_to recv_to : Z.
+  Variable rbuf : nat.
+  Variable E : Type.
+  Variable m : envsm E.
+  Variable rdump : list N -> Prop.          (* ANY notion of "this dump gives the password away" - even "every dump does" *)
+  Variable rtree : list msg -> Prop.
+  Hypothesis auth_tree_masked : ~ rtree auth_req.
+  Hypothesis peer_no_echo_tree : forall buf pt ms b, decode_step buf pt = (Some (Some ms), b) -> ~ rtree ms.
+
+  Lemma not_trace_5 : ~ (lTrace <= 5). Proof. unfold lTrace. lia. Qed.
+
+  Theorem C11_quiet_levels : forall calls e l, l <= 5 ->
+    Forall (fun c => match c with CSend _ _ ms => ~ rtree ms | CDisconnect _ => True end) calls ->
+    let w := snd (run msg encode decode_step enc dec iv0 valid_req auth_req auth_ok conn_to send_to recv_to rbuf E m
+                    (init_state iv0) (init_world msg E e l) calls) in
+    clean msg rdump rtree (out msg E w) /\ level msg E w = l.
+  Proof.
+    intros calls e l Hl Hcalls.
+    apply (ClientLog.C11_no_secret msg encode decode_step enc dec iv0 valid_req auth_req auth_ok conn_to send_to recv_to rbuf E m
+             rdump rtree 5 (fun H => False_ind _ (not_trace_5 H)) auth_tree_masked (fun H => False_ind _ (not_trace_5 H)) peer_no_echo_tree
+             calls e l); [unfold auth_level; lia|exact Hl|].
+    eapply Forall_impl; [|exact Hcalls]. intros [fuel ms|]; [|auto]. intro H. split; [exact H|]. intro H5. destruct (not_trace_5 H5).
+  Qed.
+End Quiet.
+
+(* ... in particular no byte dump is logged at all at those levels (take "every dump reveals" and "no tree reveals") *)
+Theorem C11_no_dumps_at_quiet_levels : forall msg encode decode_step enc dec iv0 valid_req auth_req auth_ok conn_to send_to recv_to rbuf E (m : envsm E) calls e l,
+  l <= 5 ->
+  let w := snd (run msg encode decode_step enc dec iv0 valid_req auth_req auth_ok conn_to send_to recv_to rbuf E m
+                  (init_state iv0) (init_world msg E e l) calls) in
+  forall lv b, ~ In (EvLog msg lv (LDump msg b)) (out msg E w).
+Proof.
+  intros msg encode decode_step enc dec iv0 valid_req auth_req auth_ok conn_to send_to recv_to rbuf E m calls e l Hl w lv b Hin.
+  destruct (C11_quiet_levels msg encode decode_step enc dec iv0 valid_req auth_req auth_ok conn_to send_to recv_to rbuf E m
+              (fun _ => True) (fun _ => False) (fun F => F) (fun _ _ _ _ _ F => F) calls e l Hl) as [Hc _].
+  - apply Forall_forall. intros [fuel ms|] _; auto.
+  - exact (Hc lv (LDump msg b) Hin I).
+Qed.
+
+Print Assumptions C11_quiet_levels. Print Assumptions C11_no_dumps_at_quiet_levels.
